@@ -1439,3 +1439,52 @@ def lemma_den_permutation():
 
 
 L_DEN_PERMUTATION = Lemma("denote.permutation", lemma_den_permutation)
+
+
+# ==============================================================================  Formula.neutron_sld / xray_sld (deprecated forwarding methods)
+
+def c_record_call(tag):
+    def c(interp, st, args, kw):
+        return VObj("Call", {"fn": tag, "args": list(args), "kw": dict(kw)})
+    return c
+
+
+def _fwd_inputs(st, interp):
+    use_state(st)
+    f = new_formula(st, "self")
+    w = VOpt(st.fresh("wavelength_is_none", z3.BoolSort()), st.fresh("wavelength", z3.RealSort()))
+    e = VOpt(st.fresh("energy_is_none", z3.BoolSort()), st.fresh("energy", z3.RealSort()))
+    return [f], {"wavelength": w, "energy": e}, {"self": f, "w": w, "e": e, "S": f.attrs["structure"].expr}
+
+
+def _fwd_post(which):
+    def post(st, interp, C, res):
+        if res.outcome == "raise":
+            st.oblige("never-raises", False, kind="raises", info={"exc": res.exc})
+            return
+        f = C["self"]
+        v = res.value
+        if isinstance(v, VTuple):
+            st.oblige("post.(None, ...) only when the density is unknown",
+                      z3.And(f.attrs["density"].is_none, z3.BoolVal(all(x is None for x in v.items))))
+            return
+        ok = isinstance(v, VObj) and v.cls == "Call" and v.attrs["fn"] == which
+        st.oblige("post.forwards to %s" % which, z3.BoolVal(ok))
+        if not ok:
+            return
+        kw = v.attrs["kw"]
+        st.oblige("post.the density is known on the forwarding path", z3.Not(f.attrs["density"].is_none))
+        st.oblige("post.forwards the formula's atoms",
+                  spec.eq_goal(interp, st, v.attrs["args"][0] if v.attrs["args"] else None, denotation_map(st, C["S"])))
+        st.oblige("post.forwards the formula's density", spec.eq_goal(interp, st, kw.get("density"), f.attrs["density"].val))
+        st.oblige("post.forwards wavelength= unchanged", spec.eq_goal(interp, st, kw.get("wavelength", "missing"), C["w"]))
+        st.oblige("post.forwards energy= unchanged", spec.eq_goal(interp, st, kw.get("energy", "missing"), C["e"]))
+    return post
+
+
+U_FORMULA_NEUTRON_SLD = Unit("Formula.neutron_sld", F + "neutron_sld", _fwd_inputs, _fwd_post("neutron_sld"),
+                             contracts=dict(CALLEE, **{"periodictable.nsf.neutron_sld": c_record_call("neutron_sld")}),
+                             replay={"module": "c04", "task": "replay"})
+U_FORMULA_XRAY_SLD = Unit("Formula.xray_sld", F + "xray_sld", _fwd_inputs, _fwd_post("xray_sld"),
+                          contracts=dict(CALLEE, **{"periodictable.xsf.xray_sld": c_record_call("xray_sld")}),
+                          replay={"module": "c05", "task": "replay"})
